@@ -229,7 +229,12 @@ def main():
                 'engine': 'pyvc',
                 'level_claimed': {'category': 'proof', 'text': c['text'], 'design_ref': c['design']},
                 'level_note': c['note'],
-                'technique': 'contract-based deductive verification: VCs generated from the Python AST of the real functions, discharged by z3',
+                'technique': 'contract-based deductive verification: sidecar contracts on the real functions, VCs generated from the '
+                             'Python AST of the current source on every run and discharged by z3 (the `obligations` / `discharged` of the '
+                             'evidence count only these); functions outside the VC generator carry a contract whose postcondition is taken '
+                             'from the property statement and is compared natively on generated inputs against an independent reference -- '
+                             'a bounded stand-in, labelled as such in level_claimed.text and in evidence.coverage.bounded_checks, never '
+                             'counted as proved',
             })
         elif pid in NA:
             na.append({'property_id': pid, 'reason': NA[pid]})
